@@ -1126,7 +1126,7 @@ decl(struct scope *s, struct func *f)
 						error(&tok.loc, "parameter of function '%s' has incomplete type", name);
 				}
 				f = mkfunc(d, name, t, s);
-				stmt(f, s);
+				funcbody(f, s);
 				if (d->u.func.isnoreturn)
 					funchlt(f);
 				/* XXX: need to keep track of function in case a later declaration specifies extern */
